@@ -382,6 +382,11 @@ func runC19(w *World) *Result {
 				notInput = true
 			}
 		}
+		// the files the program imports are inputs as well; the command can only protect them if the
+		// library tells it which files it read
+		if tr.call.Call.StaticCallee() != nil && tr.call.Call.StaticCallee().Signature.Results().Len() <= 2 {
+			r.Bad("R-C19-write", "write:not-input:imports", w.Pos(m.call.Pos()), "only the file named by -i is compared with the output path: a file the program imports (tsh -i main.tsh with  import u \"main.sh\"  and -o .) is replaced by the emitted script, exit 0 — the library does not report which files it read")
+		}
 		if notInput {
 			r.Ok("R-C19-write", "write:not-input", w.Pos(m.call.Pos()), "the write is preceded by a same-file test of output and input that ends the command")
 		} else {
